@@ -19,8 +19,8 @@ LINEAGE = "prqlc/prqlc/src/ir/pl/lineage.rs"
 IDENT = "prqlc/prqlc-parser/src/parser/pr/ident.rs"
 INFERENCE = "prqlc/prqlc/src/semantic/resolver/inference.rs"
 
-LABELS = ["LE1", "LE2", "LE3", "IC1", "IC2", "SH1", "JL1", "JL2"]
-FUNCTIONS = ["excludes_one", "except_from_star", "is_column_named", "declare_if_new", "shadow_one", "join"]
+LABELS = ["LE1", "LE2", "LE3", "IC1", "IC2", "SH1", "JL1", "JL2", "RN1", "RN2"]
+FUNCTIONS = ["excludes_one", "except_from_star", "is_column_named", "declare_if_new", "shadow_one", "join", "rename_one"]
 OPTIONAL_FUNCTIONS = ["shadow_one"]
 RLIMIT = 60
 
@@ -202,8 +202,33 @@ def build(X):
             r.columns@ =~= lhs0.columns@ + rhs.columns@, // @JL1
             r.inputs@ =~= lhs0.inputs@ + rhs.inputs@, // @JL2
     """)
+    # ---- rename: what aliasing a relation does to ONE column of its frame
+    rn = X.fn(TRANSFORMS, "rename", after="impl Lineage")
+    mrn = re.search(r"for col in &mut self\.columns \{", rn.text)
+    if not mrn:
+        raise ExtractionError("Lineage::rename: the loop `for col in &mut self.columns { .. }` was not found")
+    rtoks = code_tokens(rn.text)
+    kr = next(i for i, t in enumerate(rtoks) if t[1] == mrn.end() - 1)
+    rn.name = "rename_one"
+    rn.text = rn.text[rtoks[kr][2]:rtoks[match_brace(rn.text, rtoks, kr)][1]]
+    rn.rewrites.append({"rule": "slice", "what": "body of `for col in &mut self.columns { .. }` of Lineage::rename wrapped as fn rename_one(col, alias); the loops are dropped"})
+    rn.rewrite_re("R5", r"\balias\.clone\(\)", "clone_string(&alias)", count=None, why="String::clone")
+    # Verus: "match arm containing both a match-guard and a binding by mutable reference" is not supported.  `P if G => S,` followed only by the arm `_ => {}` is `P => { if G { S } }`
+    mg = re.search(r"(LineageColumn::Single \{[^}]*\})\s*if\s+([^=]+?)\s*=>\s*([^,]+),\s*_\s*=>\s*\{\s*\}", rn.text, re.S)
+    if mg:
+        rn.text = rn.text[:mg.start()] + "%s => { if %s { %s; } }\n                _ => {}" % (mg.group(1), mg.group(2).strip(), mg.group(3).strip()) + rn.text[mg.end():]
+        rn.rewrites.append({"rule": "R16", "what": "guarded arm with a `&mut` binding, followed only by `_ => {}`, written as the unguarded arm with the guard as an `if` inside (same meaning: the fall-through arm does nothing)"})
+    rn.text = ("pub fn rename_one(col: &mut LineageColumn, alias: String)\n"
+               "    ensures\n"
+               "        // C05: EVERY named column of the relation - computed ones too - is qualified with the alias, so `alias.*` and `alias.name` reach it; its own name stays\n"
+               "        (*old(col) is Single && old(col)->Single_name is Some) ==> (*final(col) is Single && final(col)->Single_name is Some && final(col)->Single_name->0.name == old(col)->Single_name->0.name\n"
+               "            && final(col)->Single_name->0.path@.len() == 1 && final(col)->Single_name->0.path@[0]@ == alias@\n"
+               "            && final(col)->Single_target_id == old(col)->Single_target_id && final(col)->Single_target_name == old(col)->Single_target_name), // @RN1\n"
+               "        // a star and an unnamed column are left alone\n"
+               "        !(*old(col) is Single && old(col)->Single_name is Some) ==> *final(col) == *old(col), // @RN2\n"
+               "{\n    " + rn.text + "\n}\n")
     join_text = ("#[verifier::external_body] pub fn vec_extend<T>(v: &mut Vec<T>, o: Vec<T>) ensures final(v)@ == old(v)@ + o@, { unimplemented!() }\n" + lin.text + "\n" + jn.text + "\n")
-    return (PRELUDE + common_std.STR_PREDS + ident.text + "\n" + lc.text + "\n" + SHIMS + ty_field.text + "\n" + f.text + "\n" + ar.text + "\n" + g.text + "\n" + d.text + "\n" + sh.text + "\n" + join_text
+    return (PRELUDE + common_std.STR_PREDS + ident.text + "\n" + lc.text + "\n" + SHIMS + ty_field.text + "\n" + f.text + "\n" + ar.text + "\n" + g.text + "\n" + d.text + "\n" + sh.text + "\n" + rn.text + "\n" + join_text
             + "\n} // verus!\nfn main() {}\n")
 
 
